@@ -66,6 +66,10 @@ def ranking (topSize : Nat) (cs : List Cand) : List Cand :=
 def before (a b : Cand) : Bool :=
   decide (a.votes > b.votes) || (decide (a.votes = b.votes) && decide (a.addr < b.addr))
 
+/-- non-strict version of `before` (total pre-order on candidates) -/
+def rankLE (a b : Cand) : Bool :=
+  decide (a.votes > b.votes) || (decide (a.votes = b.votes) && decide (a.addr ≤ b.addr))
+
 def insertC (c : Cand) : List Cand → List Cand
   | [] => [c]
   | x :: xs => if before x c then x :: insertC c xs else c :: x :: xs
@@ -155,9 +159,11 @@ def collectUnreg (chs : List Change) : List Nat :=
   (chs.filter (fun c => c.flag == Flag.no)).map (·.addr)
 
 /-- `CBlock.updateTop` — the four branches as coded.  `oldTop` = block.Top (clone of the parent's),
-    `index` = CandidateTrieDB after `dye`.  `Min()` of an empty list is a nil dereference. -/
-def updateTop (max : Nat) (oldTop index : List Cand) (unregs : List Nat) (changed : List Cand) :
-    GoRes (List Cand) :=
+    `index` = CandidateTrieDB after `dye`.  `Min()` of an empty list is a nil dereference.
+    `tieFix = true` is the current code (`rankedAtOrBefore`, /repo fix 991f3e9: the third branch
+    compares in the ranking order); `tieFix = false` is the code before that fix (totals only). -/
+def updateTop (tieFix : Bool) (max : Nat) (oldTop index : List Cand) (unregs : List Nat)
+    (changed : List Cand) : GoRes (List Cand) :=
   let newTop0 := filterUnreg oldTop unregs
   let changed := filterUnreg changed unregs
   let newTop := mergeCandidates max newTop0 changed
@@ -166,7 +172,7 @@ def updateTop (max : Nat) (oldTop index : List Cand) (unregs : List Nat) (change
   else
     match newTop.getLast?, oldTop.getLast? with
     | some nm, some om =>
-      if nm.votes ≥ om.votes then .ok newTop      -- compares the TOTALS only
+      if (if tieFix then rankLE nm om else decide (nm.votes ≥ om.votes)) then .ok newTop
       else .ok (ranking max index)
     | _, _ => .panic
 
@@ -176,15 +182,15 @@ def logsOf (chs : List Change) (extra : List Cand) : List Cand :=
 
 /-- `AccountTrieDB.Put` for every change, then `CBlock.Ranking(voteLogs)` on a fresh child of `parent`
     (`NewNormalBlock` clones the parent's tries and top). -/
-def applyBlock (max : Nat) (pid : Nat) (parent : Blk) (chs : List Change) (extra : List Cand) :
-    GoRes Blk :=
+def applyBlock (tieFix : Bool) (max : Nat) (pid : Nat) (parent : Blk) (chs : List Change)
+    (extra : List Cand) : GoRes Blk :=
   let accts := chs.foldl (fun l c => putAcct l ⟨c.addr, c.flag, c.votes⟩) parent.accts
   let logs := logsOf chs extra
   let b : Blk := { parent := pid, top := parent.top, index := parent.index, accts := accts, changes := chs }
   if logs.isEmpty then .ok b      -- `if len(voteLogs) <= 0 { return }`
   else
     let index := dye parent.index logs
-    match updateTop max parent.top index (collectUnreg chs) logs with
+    match updateTop tieFix max parent.top index (collectUnreg chs) logs with
     | .ok t => .ok { b with top := t, index := index }
     | .err e => .err e
     | .panic => .panic
@@ -200,16 +206,17 @@ def commitPersist (persist : List Cand) (chs : List Change) : List Cand :=
 def restartTop (max : Nat) (persist : List Cand) (stableAccts : List Acct) : List Cand :=
   ranking max (persist.filter (fun c => flagOf stableAccts c.addr == Flag.yes))
 
-/-- the `LastConfirm` CBlock after a restart: `NewGenesisBlock(stableBlock)` — EMPTY candidate index. -/
-def restartBlk (max : Nat) (persist : List Cand) (stable : Blk) : Blk :=
-  { parent := stable.parent, top := restartTop max persist stable.accts, index := [],
+/-- the `LastConfirm` CBlock after a restart: `NewGenesisBlock(stableBlock)`, top re-ranked.
+    `idxFix = true` is the current code (/repo fix d292196: the all-candidates index is rebuilt from
+    EVERY persisted candidate, un-registered ones included); `idxFix = false` is the code before that
+    fix (the index stays empty). -/
+def restartBlk (idxFix : Bool) (max : Nat) (persist : List Cand) (stable : Blk) : Blk :=
+  { parent := stable.parent, top := restartTop max persist stable.accts,
+    index := if idxFix then persist else [],
     accts := stable.accts, changes := [] }
 
-/-! ## Repaired variants (proposed minimal repairs; NOT what /repo does) -/
-
-/-- non-strict version of `before` (total pre-order on candidates) -/
-def rankLE (a b : Cand) : Bool :=
-  decide (a.votes > b.votes) || (decide (a.votes = b.votes) && decide (a.addr ≤ b.addr))
+/-! ## Fully repaired variants (the two fixes that are in /repo PLUS the two proposed ones that are
+    not: skip un-registered index entries in re-rank-all, no early return) — NOT what /repo does -/
 
 /-- `updateTop` with the two repairs: the re-rank-all branches skip index entries that are not
     registered in the block's account view, and the third branch compares (votes, address). -/
